@@ -1,6 +1,6 @@
 use super::{Vm, VmFileId};
 use crate::{
-  cache::InlineCache,
+  cache::{CacheIdEmitter, InlineCache},
   compiler::{Compiler, Parser, Resolver},
   source::Source,
   FeResult,
@@ -53,9 +53,16 @@ impl Vm {
     )
     .resolve(&mut ast)?;
 
+    // a module that already holds code (the repl) keeps its slots
+    let cache_ids = match self.inline_cache.get(module.id()) {
+      Some(cache) => cache.id_emitter(),
+      None => CacheIdEmitter::default(),
+    };
+
     let gc = self.gc.replace(Allocator::default());
     let alloc = Bump::new();
-    let compiler = Compiler::new(module, &alloc, &line_offsets, file_id, repl, self, gc);
+    let compiler = Compiler::new(module, &alloc, &line_offsets, file_id, repl, self, gc)
+      .with_cache_ids(cache_ids);
 
     #[cfg(feature = "debug")]
     let compiler = compiler.with_io(self.io.clone());
@@ -64,15 +71,15 @@ impl Vm {
     self.gc.replace(gc);
 
     result.map(|fun| {
-      let cache = InlineCache::new(
-        cache_id_emitter.property_count(),
-        cache_id_emitter.invoke_count(),
-      );
+      let property_slots = cache_id_emitter.property_count();
+      let invoke_slots = cache_id_emitter.invoke_count();
 
       if module.id() < self.inline_cache.len() {
-        self.inline_cache[module.id()] = cache;
+        self.inline_cache[module.id()].grow(property_slots, invoke_slots);
       } else {
-        self.inline_cache.push(cache);
+        self
+          .inline_cache
+          .push(InlineCache::new(property_slots, invoke_slots));
       }
       self.manage_obj(fun)
     })
